@@ -4,6 +4,7 @@ import Revm.Proofs.EvmStepTable
 import Revm.Proofs.EvmHost
 import Revm.Proofs.EvmSpec
 import Revm.Proofs.EvmRefineMain
+import Revm.Proofs.EvmRefineE7
 /-! C01 — "For every pre-state, block environment, valid transaction and hardfork from Frontier to Prague, executing the
 transaction yields the same outcome class, the same gas used, the same return data and logs, and the same post-state as
 the Ethereum execution specification."
@@ -273,8 +274,12 @@ def FullStatement_transact_refines_spec : Prop :=
           (Spec.Evm.transact fuel (freshWorld spec pre true oracle) e spec)
 
 open Revm.Spec.Evm in
-/-- PROVED of `FullStatement_transact_refines_spec`: the statement for EVERY COMPLETED ADMISSIBLE RUN — every program,
-transaction type, SpecId, depth of nesting and fuel. `transactStrict` is the model (`Evm.transact`, journal of undo
+/-- PROVED of `FullStatement_transact_refines_spec`: the statement for EVERY ADMISSIBLE RUN, completed or not — every
+program, transaction type, SpecId, depth of nesting and fuel; a run that stops with a model-level error (panic, fatal
+database / precompile error, missing oracle answer, out of fuel) is matched by the same KIND of error of the
+specification (`Proofs/EvmRR.lean`: the relation `RR` of results is a congruence for `bind`; `Proofs/EvmSimE.lean`,
+`EvmSimTxE.lean`, `EvmRefineE1…E7.lean`). The only hypothesis: the strict run does
+not stop AT ONE OF ITS TWO CHECKS (`StopsInadmissible`). `transactStrict` is the model (`Evm.transact`, journal of undo
 entries) with the two admissibility conditions of C06 checked at run time (Spec/EvmStrict.lean): `set_code` only on an
 account with empty code, `create_account_checkpoint` only on a target not yet created in this transaction. A completed
 strict run IS a run of the model with the same result (`Proofs.EvmRefine.strict_is_model`), and the specification then
@@ -291,21 +296,29 @@ C06 are DISCHARGED from the frame machine: the caller of a creation is funded (`
 bump and the load of the target keep it), the `has_storage` answer is faithful, `initial_account_load` only runs before
 the first checkpoint (`load_accounts`), a reverted checkpoint is the innermost open one.
 
-MISSING for the full statement: (1) that every run of the model is admissible, i.e. `transactStrict` completes whenever
-`Evm.transact` does — true when `keccak256` address derivation does not collide within a transaction (a created
+MISSING for the full statement: (1) that every run of the model is admissible, i.e. `transactStrict` never stops at one
+of its two checks — true when `keccak256` address derivation does not collide within a transaction (a created
 address is fresh; the code of an address under creation can only change by its own `create_return`), which this
-development does not assume; (2) the error direction: a model-level error (`panic` / `fatal` / `oracleMiss` /
-`outOfFuel`) of the journal machine is the same kind of error of the snapshot machine — the simulation is proved for
-completed runs only; (3) as before, the CALL / CREATE gas bookkeeping across frames, precompile internals and signature
+development does not assume; (2) as before, the CALL / CREATE gas bookkeeping across frames, precompile internals and signature
 recovery are shared by both sides (oracle inputs / the same functions), so nothing is claimed about them here. -/
 theorem transact_refines_spec_partial (fuel spec : Nat) (pre : List PreAcct) (oracle : List PcAnswer) (e : Evm.Env)
+    (hbal : ∀ p ∈ pre, p.balance < W)
+    (hadm : ¬ Proofs.EvmRefine.StopsInadmissible (transactStrict fuel (freshWorld spec pre true oracle) e spec)) :
+    ObsEq (Evm.transact fuel (freshWorld spec pre true oracle) e spec)
+          (Spec.Evm.transact fuel (freshWorld spec pre true oracle) e spec) :=
+  Proofs.EvmRefine.transact_refines_spec_total fuel _ e spec (Proofs.EvmRefine.start_fresh spec pre oracle hbal) hadm
+
+open Revm.Spec.Evm in
+/-- the form for completed runs: a run of the strict machine that completes does not stop at a check -/
+theorem transact_refines_spec_completed (fuel spec : Nat) (pre : List PreAcct) (oracle : List PcAnswer) (e : Evm.Env)
     (hbal : ∀ p ∈ pre, p.balance < W)
     (hrun : ∃ x, transactStrict fuel (freshWorld spec pre true oracle) e spec = .ok x) :
     ObsEq (Evm.transact fuel (freshWorld spec pre true oracle) e spec)
           (Spec.Evm.transact fuel (freshWorld spec pre true oracle) e spec) := by
+  refine transact_refines_spec_partial fuel spec pre oracle e hbal ?_
+  rintro ⟨err, herr, _⟩
   obtain ⟨x, hx⟩ := hrun
-  exact Proofs.EvmRefine.transact_refines_spec_of_strict fuel _ e spec
-    (Proofs.EvmRefine.start_fresh spec pre oracle hbal) x hx
+  rw [hx] at herr; cases herr
 
 open Revm.Spec.Evm in
 /-- the hypotheses are satisfiable, with a run that reverts a subroutine: a call with value to a contract that writes a
